@@ -7,6 +7,9 @@ import (
 	"fmt"
 	"os"
 	"sort"
+	"strings"
+
+	"verif/harness/gen"
 
 	kmip "github.com/ovh/kmip-go"
 	_ "github.com/ovh/kmip-go/payloads"
@@ -63,6 +66,23 @@ func main() {
 	out := map[string]any{"tags": tags, "enums": enums, "masks": masks}
 	b, _ := json.MarshalIndent(out, "", " ")
 	os.WriteFile(os.Args[1], b, 0o644)
+	if len(os.Args) > 2 {
+		gates := map[string]string{}
+		for _, t := range gen.ReachableStructs() {
+			for i := 0; i < t.NumField(); i++ {
+				f := t.Field(i)
+				for _, part := range strings.Split(f.Tag.Get("ttlv"), ",") {
+					if v, ok := strings.CutPrefix(part, "version="); ok {
+						v = strings.TrimSuffix(strings.TrimPrefix(v, "v"), "..")
+						gates[t.Name()+"."+f.Name] = v
+					}
+				}
+			}
+		}
+		b, _ := json.MarshalIndent(gates, "", " ")
+		os.WriteFile(os.Args[2], b, 0o644)
+		fmt.Println("gated fields", len(gates))
+	}
 	nv := 0
 	for _, e := range enums {
 		nv += len(e.Values)
